@@ -1,2 +1,62 @@
-(* placeholder until the proofs are in *)
-From AS Require Import Oidc.Handler.
+(* Properties/C01.v — C01, fail-closed.  Property theorems only. *)
+From AS Require Import Base.Str Http.Cookie Oidc.Types Oidc.Prog Oidc.Handler Oidc.Spec Oidc.Monitors Oidc.Store
+  Proofs.P01 Proofs.Examples.
+
+(* For every configuration, token universe, clock reading, request and EVERY list of environment
+   answers - that is every behaviour of session store, token endpoint, key source and generator, any
+   failure at any position included - an OK verdict has one of exactly two shapes: (1) the only effect
+   was reading tokens for the presented (non-empty) session id, the store returned tokens, they are
+   unexpired now and the forwarded headers are theirs; (2) tokens expired, a refresh token present, the
+   refresh exchange was answered with a decodable valid body, the merged ID token validated, the merged
+   tokens were stored for the same id successfully, and the forwarded headers are the merged ones. *)
+Theorem C01_ok_justified :
+  forall c db now r answers h tr rest,
+    run (process c db now r) answers = Some (OAllow h, tr, rest) -> ok_shape c db now r tr h = true.
+Proof. exact ok_justified. Qed.
+Print Assumptions C01_ok_justified.
+
+(* a failed answer anywhere in the check - store call, token endpoint, key lookup - rules out OK *)
+Theorem C01_any_failure_denies :
+  forall c db now r answers o tr rest,
+    run (process c db now r) answers = Some (o, tr, rest) -> all_answers_ok tr = false -> is_allow o = false.
+Proof. exact fail_closed. Qed.
+Print Assumptions C01_any_failure_denies.
+
+Theorem C01_no_cookie_no_ok :
+  forall c db now r answers o tr rest,
+    run (process c db now r) answers = Some (o, tr, rest) -> request_sid c r = "" -> is_allow o = false.
+Proof. exact no_cookie_no_ok. Qed.
+Print Assumptions C01_no_cookie_no_ok.
+
+(* against the abstract session map: OK needs a session that holds tokens when the check starts,
+   unexpired - or expired, refreshable and renewed by this very check, the renewed tokens being what the
+   map holds afterwards *)
+Theorem C01_ok_needs_live_session :
+  forall c db now r answers h tr rest st st',
+    run (process c db now r) answers = Some (OAllow h, tr, rest) -> steps st tr st' ->
+    exists t, tok_of st (request_sid c r) = Some t /\ request_sid c r <> "" /\
+      ((tokens_expired c db now t = Some false /\ st' = st /\ h = tokens_to_headers c t) \/
+       (tokens_expired c db now t = Some true /\ t_refresh t <> "" /\
+        exists b oa, In (EIdp (refresh_request c (t_refresh t)), AIdp (IdpBody b)) tr /\
+          valid_refresh_tokens b = true /\
+          validated c db (t_id (merged_tokens db now t b)) (nonce_of oa) false = true /\
+          tok_of st' (request_sid c r) = Some (merged_tokens db now t b) /\
+          h = tokens_to_headers c (merged_tokens db now t b))).
+Proof. exact ok_needs_live_session. Qed.
+Print Assumptions C01_ok_needs_live_session.
+
+(* non-vacuity: both OK shapes occur in the example world, and a failing store turns OK into a denial *)
+Example C01_example_fresh :
+  exists h, run (process ex_c ex_db 1000 (ex_req "/app?x=1" (ex_cookie "S1"))) [ATok (Some (Some ex_old))]
+            = Some (OAllow h, [(EGetTok "S1", ATok (Some (Some ex_old)))], []).
+Proof. eexists. vm_compute. reflexivity. Qed.
+Example C01_example_refreshed :
+  exists h tr, run (process ex_c ex_db 3000 (ex_req "/app" (ex_cookie "S1")))
+                 [ATok (Some (Some ex_old)); AIdp (IdpBody ex_body); AAuth (Some None); AJwks true; AUnit true]
+               = Some (OAllow h, tr, []) /\ length tr = 5.
+Proof. eexists. eexists. vm_compute. split; reflexivity. Qed.
+Example C01_example_store_failure_denies :
+  exists d tr, run (process ex_c ex_db 3000 (ex_req "/app" (ex_cookie "S1")))
+                 [ATok (Some (Some ex_old)); AIdp (IdpBody ex_body); AAuth (Some None); AJwks true; AUnit false]
+               = Some (ODeny d, tr, []).
+Proof. eexists. eexists. vm_compute. reflexivity. Qed.
